@@ -112,6 +112,7 @@ GROUPS = {
         "inject": "runtime/src/ink_list.rs",
         "modpath": "ink_list",
         "files": ["list_ops.rs", "list_ops_instances.rs", "list_common.rs"],
+        "weight": 4,
         "instance_macros": ["h"],
         "requires": ["pub fn get_max_item(", "fn get_ordered_items(", "pub(crate) fn list_with_sub_range("],
         "model_map": True,
@@ -171,6 +172,7 @@ GROUPS = {
         "inject": "runtime/src/native_function_call.rs",
         "modpath": "native_function_call",
         "files": ["native_list.rs", "native_list_instances.rs", "list_common.rs"],
+        "weight": 8,
         "instance_macros": ["h"],
         "requires": ["fn call_type(", "fn call_list_increment_operation(", "fn call_binary_list_operation("],
         "model_map": True,
@@ -196,6 +198,19 @@ GROUPS = {
         "roles": {"val_equal_float": "global vs default, both Float, all f32 pairs", "val_equal_int_bool": "global vs default, Int/Int and Bool/Bool",
                   "val_equal_cross_type": "global vs default of different scalar types"},
     },
+    "json_object": {
+        "pkg": "bladeink", "inject": "runtime/src/json/json_read.rs", "modpath": "json::json_read",
+        "files": ["json_object.rs", "json_object_instances.rs"], "instance_macros": ["obj"],
+        "requires": ["pub fn jtoken_to_runtime_object(", "use serde_json::Map;"], "model_map": True, "panic_property": "C15",
+        "functions": ["json_read::jtoken_to_runtime_object (Object arm)", "json_read::jobject_to_choice", "json_read::jarray_to_tags",
+                      "Divert::new", "ChoicePoint::new", "VariableReference::{new,from_path_for_count}", "VariableAssignment::new", "Tag::new",
+                      "Value::new_variable_pointer", "Path::new_with_components_string (concrete \"a\")"],
+        "bounds": ("one object per harness: {K: v} for each of the 14 keys the loader probes and v in {any i64 number, bool, null, the string "
+                   "\"a\"}, plus two/three-key shapes for the secondary keys ci, exArgs, flg, var, c, re, origins, an unknown key and {}; "
+                   "serde_json::Map::insert/get stubbed by an association list (iteration over a Map not modelled: list contents, "
+                   "container terminators and list definitions are outside)"),
+        "stubs": ["alloc::fmt::format", "serde_json::Map::insert", "serde_json::Map::get"],
+    },
 }
 
 
@@ -208,6 +223,8 @@ def describe(gname, h):
         if m:
             return (f"NativeFunctionCall::call op={m.group(1)} value oracle on narrow operands ({m.group(2)}: ints = sign-extended "
                     "i16, floats = k/4 with |k| < 2^11), values symbolic within that range")
+    if gname == "json_object":
+        return ("bug-hunt: " if h.startswith("hunt_") else "") + "loader on the object token " + h.replace("hunt_", "")[4:] + " (key family _ value type; number values symbolic i64)"
     if gname in ("list_ops", "native_list"):
         return "list kernel " + h + " over LIST A=x,y / LIST B=x,z, items a=A.x b=A.y c=B.x d=B.z (item values symbolic; name encodes operator, operand membership, insertion order)"
     d = GROUPS[gname].get("roles", {})
@@ -273,6 +290,14 @@ def sel_dispatch(quick_n):
     return f
 
 
+def sel_obj(tier, seed, names):
+    prove = [n for n in names if n.startswith("obj_")]
+    hunt = [n for n in names if n.startswith("hunt_obj_")]
+    if tier == "thorough":
+        return prove + hunt
+    return rot(prove, seed, 12) + rot(hunt, seed, 8)
+
+
 def sel_list(prefix, quick_n):
     def f(tier, seed, names):
         mine = [n for n in names if n.startswith(prefix)]
@@ -314,7 +339,7 @@ PROPS = {
         "assumptions": ["RFC 8259 section 7 defines a valid JSON string body"],
     },
     "C15": {
-        "groups": {"json_value": sel_prefix("tok_", "arr_", "hunt_"), "pushpop": sel_all},
+        "groups": {"json_value": sel_prefix("tok_", "arr_", "hunt_"), "pushpop": sel_all, "json_object": sel_obj},
         "outside": ("every object-shaped token (obj.get(k)...unwrap() sites): serde_json::Map is a BTreeMap CBMC does not get "
                     "through; whole-document parsing, nesting depth, reset-after-failed-load, the streaming loader's structure"),
         "assumptions": ["tokens are built directly as serde_json::Value (what serde_json::from_str hands the loader)"],
